@@ -1,0 +1,9 @@
+//go:build !verif
+
+package upstream
+
+import "net/http"
+
+func verifTransport(_ bool) http.RoundTripper {
+	return nil
+}
